@@ -5,7 +5,8 @@
    every limit, every number of tasks, every accepted trace = every schedule of the submitting goroutines and the workers,
    and every pattern of returning / panicking tasks; [ids] is any duplicate-free universe containing the submitted ids. *)
 From Coq Require Import List ZArith Bool.
-From V Require Import Lib.Enc Gen.ConstsGoz Model.Limiter Run.C19 Proofs.Limiter Proofs.LimiterShape Proofs.LimiterRun Proofs.LimiterSim.
+From V Require Import Lib.Enc Gen.ConstsGoz Model.Limiter Run.C19 Proofs.Limiter Proofs.LimiterShape Proofs.LimiterRun Proofs.LimiterSim
+  Proofs.LimiterJudgeTrace Proofs.LimiterJudgeSim Proofs.LimiterJudge.
 Import ListNotations.
 
 (* the code still has the statement order the event model stands for (regenerated from goz.go on every run):
@@ -105,3 +106,34 @@ Theorem c19_simulate_is_model_trace : forall n ops,
     accept_obs (new_limiter n) 0 tr = inl s /\ wg s = 0 /\ tokens s = 0 /\ ends_with_waitret tr = true.
 Proof. exact simulate_is_model_trace. Qed.
 Print Assumptions c19_simulate_is_model_trace.
+
+
+(* run family 0, totality of the prediction: for every limit and every script — ANY list of integers: run_script ignores unknown op
+   codes and a trailing odd element, takes kinds mod 7 and skips GO at 40 tasks, so no well-formedness premise is needed and nothing
+   is excluded — the model's answer is never NOFUEL, and MAXTASKS rounds of drain (a third of the 3 * MAXTASKS it is given) already
+   release every running task *)
+Theorem c19_simulate_total : forall n ops,
+  simulate n ops <> [NOFUEL] /\
+  (forall f, MAXTASKS <= f -> s_act (drain f (run_script (sim0 n) ops)) = []).
+Proof. exact simulate_total. Qed.
+Print Assumptions c19_simulate_total.
+Theorem c19_simulate_is_model_trace_total : forall n ops,
+  exists tr fin s, simulate n ops = put_list (enc_trace tr) ++ fin /\
+    accept_obs (new_limiter n) 0 tr = inl s /\ wg s = 0 /\ tokens s = 0 /\ ends_with_waitret tr = true.
+Proof. exact simulate_model_trace_total. Qed.
+Print Assumptions c19_simulate_is_model_trace_total.
+
+(* run family 0, the judge accepts the model: the specification predicate that sub 2 applies to the implementation's observed
+   output (no HANG, gauge <= limit after every event, every task exactly once and in order with RAISE answered by the handler,
+   every WAITRET after all tasks submitted before its WAITCALL ended, final WAITRET, step-by-step acceptance with everything
+   finished, and the three counters) accepts the model's own predicted output, for every limit and every script *)
+Theorem c19_judge_accepts_model : forall n ops, spec_script n (simulate n ops) = true.
+Proof. exact judge_accepts_model. Qed.
+Print Assumptions c19_judge_accepts_model.
+(* the same at token level, as Run.C19.entry computes it: for every integer list that is a family-0 case (wf_case: head 0, then
+   the limit, then any script; it excludes only the other families and lists shorter than 2), sub 2 on the case paired with the
+   sub 0 answer is [1], and the sub 0 answer is not NOFUEL *)
+Theorem c19_judge_accepts_model_tokens : forall case, wf_case case = true ->
+  entry 2 (put_list case ++ put_list (entry 0 case)) = [1%Z] /\ entry 0 case <> [NOFUEL].
+Proof. exact judge_accepts_entry. Qed.
+Print Assumptions c19_judge_accepts_model_tokens.
